@@ -24,6 +24,22 @@ from guppylang.std.quantum import measure_array
 @guppy
 def bump(a: array[int, 1]) -> None:
     a[0] = a[0] + 5
+
+@guppy
+def bump2(a: array[int, 2]) -> None:
+    a[0] = a[0] + 5
+    a[1] = a[1] * 2
+
+@guppy
+def take(cur: array[int, 1]) -> int:
+    v = cur[0]
+    cur[0] = v + 1
+    result("take", v)
+    return v
+
+@guppy
+def gswap[T](u: T, w: T) -> None:
+    mem_swap(u, w)
 '''
 
 
@@ -47,6 +63,11 @@ def classical_ops(ty, n, idx):
     if len(idx) >= 2:
         a, b = idx[0], idx[1]
         ops.append(("swap", [f"xs[{a}], xs[{b}] = xs[{b}], xs[{a}]"]))
+        # elements lent to a GENERICALLY borrowing callee (mem_swap, user generic) must receive what it wrote
+        ops.append(("mem-swap-elements", [f"mem_swap(xs[{a}], xs[{b}])"]))
+        ops.append(("generic-swap-elements", [f"gswap(xs[{a}], xs[{b}])"]))
+    for a in idx[:1]:
+        ops.append(("mem-swap-element-with-local", [f"t = {elem(ty, 77)}", f"mem_swap(xs[{a}], t)", f'result("t", {rd(ty, "t")})']))
     ops.append(("iterate", ["for e in xs.copy():", f'    result("e", {rd(ty, "e")})']))
     if ty == "int":
         ops.append(("comprehension", ["zs = array(e + 1 for e in xs.copy())", "for e in zs:", '    result("z", e)']))
@@ -119,7 +140,69 @@ def programs(tier):
             for a, b in itertools.product(vals, repeat=2):
                 for op in quantum_ops(n, [str(a), str(b)]):
                     out.append(("lit", f"qubit[{n}]", op[0], quantum_src(n, [op], ""), None))
-    # nested borrow through a callee on a sub-array
+    # NESTED arrays: element places two and three levels deep, lent to a callee or assigned, with an index
+    # expression that has an effect and yields a different value when evaluated again (a cursor)
+    out += nested_programs(tier)
+    return out
+
+
+NESTED_OPS = {
+    # 2 levels: xss: array[array[int, 2], 2]
+    "n2": [
+        ("lend-row", ["bump2(xss[i])"]),
+        ("lend-row-impure-index", ["bump2(xss[take(cur)])"]),
+        ("write-elem", ["xss[i][j] = 90"]),
+        ("write-elem-impure-index", ["xss[take(cur)][j] = 90"]),
+        ("augassign-elem", ["xss[i][j] += 7"]),
+        ("augassign-elem-impure-index", ["xss[take(cur)][j] += 7"]),
+        ("read-elem", ['result("r", xss[i][j])']),
+        ("swap-rows", ["mem_swap(xss[i], xss[j])"]),
+        ("swap-elems-across-rows", ["mem_swap(xss[i][j], xss[j][i])"]),
+        ("lend-two-rows", ["both2(xss[i], xss[j])"]),
+    ],
+    # 3 levels: xsss: array[array[array[int, 2], 2], 2]
+    "n3": [
+        ("lend-inner-row", ["bump2(xsss[i][j])"]),
+        ("lend-inner-row-impure-outer-index", ["bump2(xsss[take(cur)][j])"]),
+        ("lend-inner-row-impure-inner-index", ["bump2(xsss[i][take(cur)])"]),
+        ("lend-two-inner-rows-impure", ["both2(xsss[take(cur)][1], xsss[take(cur)][1])"]),
+        ("write-elem", ["xsss[i][j][1] = 90"]),
+        ("write-elem-impure-outer-index", ["xsss[take(cur)][j][1] = 90"]),
+        ("augassign-elem-impure-outer-index", ["xsss[take(cur)][j][0] += 7"]),
+        ("read-elem", ['result("r", xsss[i][j][0])']),
+    ],
+}
+NESTED_HDR = '''
+@guppy
+def both2(a: array[int, 2], b: array[int, 2]) -> None:
+    a[0] = a[0] + 100
+    b[1] = b[1] + 200
+'''
+
+
+def nested_src(level, seq):
+    if level == "n2":
+        body = ["xss = array(array(1, 2), array(3, 4))"]
+        fin = [f'result("f{a}{b}", xss[{a}][{b}])' for a in range(2) for b in range(2)]
+    else:
+        body = ["xsss = array(array(array(1, 2), array(3, 4)), array(array(5, 6), array(7, 8)))"]
+        fin = [f'result("f{a}{b}{c}", xsss[{a}][{b}][{c}])' for a in range(2) for b in range(2) for c in range(2)]
+    body.append("cur = array(i)")
+    for _, lines in seq:
+        body += lines
+    body += ['result("cur", cur[0])'] + fin
+    return HEADER + NESTED_HDR + "\n@guppy\ndef main(i: int, j: int) -> None:\n" + "\n".join("    " + l for l in body) + "\n"
+
+
+def nested_programs(tier):
+    out = []
+    vals = [-1, 0, 1, 2]
+    for level, ops in NESTED_OPS.items():
+        for L in (1, 2):
+            if L == 2 and tier == "quick" and level == "n3":
+                continue
+            for seq in itertools.product(ops, repeat=L):
+                out.append(("rt", f"{level}[2]", "+".join(k for k, _ in seq), nested_src(level, seq), vals))
     return out
 
 
@@ -136,6 +219,11 @@ class _Oracle(pyoracle.Oracle):
         def measure_array(qs):
             return pyoracle.PyArray(*[ns["measure"](q) for q in qs])
 
+        def _alias_check(a, b):
+            if a == b:
+                raise pyoracle.Panic("element lent twice")
+
+        ns["_alias_check"] = _alias_check
         ns["cx"] = cx
         ns["measure_array"] = measure_array
         return ns
@@ -149,6 +237,37 @@ def _norm(events):
     return out
 
 
+import re as _re
+
+_SWAP2 = _re.compile(r"^(\s*)(?:mem_swap|gswap)\((\w+(?:\[[^\]]+\])+), (\w+(?:\[[^\]]+\])+)\)$", _re.M)
+_SWAP1 = _re.compile(r"^(\s*)mem_swap\((\w+(?:\[[^\]]+\])+), (\w+)\)$", _re.M)
+
+
+# two ROWS (non-copyable elements) of one nested array lent in the same call: one element lent twice at
+# once must panic.  Only for pure index expressions (the impure ones never alias: the cursor advances).
+_LEND2 = _re.compile(r"^(\s*)((?:mem_swap|both2)\((xss\[(\w+)\]|xsss\[(\w+)\]\[(\w+)\]), (xss\[(\w+)\]|xsss\[(\w+)\]\[(\w+)\])\))$", _re.M)
+
+
+def _lend2_sub(m):
+    ind, call = m.group(1), m.group(2)
+    a = [g for g in (m.group(4), m.group(5), m.group(6)) if g]
+    b = [g for g in (m.group(8), m.group(9), m.group(10)) if g]
+    if len(a) != len(b):
+        return m.group(0)
+    # evaluate both places first (bounds panics come first, left to right), then the alias rule
+    return (f"{ind}_pl_a = {m.group(3)}; _pl_b = {m.group(7)}; _alias_check(({', '.join(a)},), ({', '.join(b)},))\n{ind}{call}")
+
+
+def py_variant(src: str) -> str:
+    """CPython cannot swap through arguments: `mem_swap(P, Q)` on places is rewritten, for the oracle only,
+    into the reads and write-backs the statement implies: both places are read (left to right), then both
+    are written (left to right) with the exchanged values."""
+    src = _LEND2.sub(_lend2_sub, src)
+    src = _SWAP2.sub(lambda m: f"{m.group(1)}_sw_a = {m.group(2)}; _sw_b = {m.group(3)}; {m.group(2)} = _sw_b; {m.group(3)} = _sw_a", src)
+    src = _SWAP1.sub(lambda m: f"{m.group(1)}_sw_a = {m.group(2)}; {m.group(2)} = {m.group(3)}; {m.group(3)} = _sw_a", src)
+    return src
+
+
 def _is_oob_panic(r):
     return r.status == "panic"
 
@@ -157,7 +276,7 @@ def eval_program(item):
     fam, ty, kinds, src, vals = item
     res = {"status": "", "dis": None, "runs": 0, "panics": 0, "harness": None}
     o, mod = gload.run_src(src)
-    code = pyoracle.prepare(gload.PRELUDE + src)
+    code = pyoracle.prepare(gload.PRELUDE + py_variant(src))
     inputs = [()] if fam == "lit" else list(itertools.product(vals, repeat=2))
     if o.kind == "crash":
         res["status"] = "crash"
